@@ -144,22 +144,39 @@ theorem kidsOf_mono {w w' : World} (h : PMono w w') (x : Nat) : kidsOf w' x = ki
   funext t
   exact (childrenOfTask_idx h t).symm
 
-/-- y is reached from x in d steps through executions that are not completed -/
-def Chain (w : World) : Nat → Nat → Nat → Prop
-  | 0, x, y => y = x ∧ ∃ e, w.execs[x]? = some e ∧ isCompleted e.state = false
-  | d + 1, x, y => ∃ k, k ∈ kidsOf w x ∧ (∃ ek, w.execs[k]? = some ek ∧ isCompleted ek.state = false) ∧ Chain w d k y
+/-- y is d levels below x (y = x for d = 0): a sub-workflow of a task of ... of a task of x, whatever the
+    states on the way -/
+def Desc (w : World) : Nat → Nat → Nat → Prop
+  | 0, x, y => y = x
+  | d + 1, x, y => ∃ k, k ∈ kidsOf w x ∧ Desc w d k y
 
-theorem Chain.mono {w w' : World} (h : PMono w w') : ∀ (d x y : Nat), Chain w d x y → Chain w' d x y := by
+/-- the execution exists and is not completed -/
+def Live (w : World) (y : Nat) : Prop := ∃ e, w.execs[y]? = some e ∧ isCompleted e.state = false
+
+theorem Desc.mono {w w' : World} (h : PMono w w') : ∀ (d x y : Nat), Desc w d x y → Desc w' d x y := by
   intro d
   induction d with
-  | zero =>
-    intro x y ⟨hy, e, he, hc⟩
-    obtain ⟨e', he', _, _⟩ := h.execs x e he
-    exact ⟨hy, e', he', by rw [completed_iff h he he']; exact hc⟩
+  | zero => intro x y hy; exact hy
   | succ d ih =>
-    intro x y ⟨k, hk, ⟨ek, hek, hc⟩, hch⟩
-    obtain ⟨ek', hek', _, _⟩ := h.execs k ek hek
-    exact ⟨k, by rw [kidsOf_mono h]; exact hk, ⟨ek', hek', by rw [completed_iff h hek hek']; exact hc⟩, ih k y hch⟩
+    intro x y ⟨k, hk, hch⟩
+    exact ⟨k, by rw [kidsOf_mono h]; exact hk, ih k y hch⟩
+
+theorem Live.mono {w w' : World} (h : PMono w w') {y : Nat} (hl : Live w y) : Live w' y := by
+  obtain ⟨e, he, hc⟩ := hl
+  obtain ⟨e', he', _, _⟩ := h.execs y e he
+  exact ⟨e', he', by rw [completed_iff h he he']; exact hc⟩
+
+theorem kidsOf_nil {w : World} (hs : Shape w) {k : Nat} (hk : w.execs.length ≤ k) : kidsOf w k = [] := by
+  unfold kidsOf
+  have : (w.tasks.zipIdx.filter fun p => p.1.wf == k) = [] := by
+    rw [List.filter_eq_nil_iff]
+    intro p hp
+    have hget : w.tasks[p.2]? = some p.1 := by
+      have := List.mem_zipIdx_iff_getElem?.mp (show (p.1, p.2) ∈ w.tasks.zipIdx from hp)
+      exact this
+    have := hs.2 p.2 p.1 hget
+    simp; omega
+  rw [this]; rfl
 
 /-! ### the primitives of the pause transaction -/
 
@@ -218,85 +235,115 @@ theorem pmono_forceFail (w : World) (t : Nat) (tk : Task) (e : Exec) (htk : w.ta
 /-- the facts about one call of pause_workflow -/
 structure PauseOk (c : Cfg) (f : Nat) (w : World) (x : Nat) : Prop where
   mono : PMono w (prop c f .pause w x).1
-  noraise : ∀ e : Exec, w.execs[x]? = some e → isCompleted e.state = false → (prop c f .pause w x).2 = false
-  paused : ∀ (d y : Nat), d < f → Chain w d x y → stateOf (prop c f .pause w x).1 y = some .PAUSED
+  noraise : Live w x → (prop c f .pause w x).2 = false
+  paused : ∀ (d y : Nat), d < f → Desc w d x y → Live w y → stateOf (prop c f .pause w x).1 y = some .PAUSED
+
+/-- ... and about the visit of a completed sub-workflow (only what is below it) -/
+structure BelowOk (c : Cfg) (f : Nat) (w : World) (x : Nat) : Prop where
+  mono : PMono w (prop c f .belowP w x).1
+  noraise : (prop c f .belowP w x).2 = false
+  paused : ∀ (d y : Nat), 0 < d → d < f → Desc w d x y → Live w y →
+    stateOf (prop c f .belowP w x).1 y = some .PAUSED
 
 theorem pause_ok (c : Cfg) : ∀ (f : Nat),
     (∀ w x, Shape w → PauseOk c f w x) ∧
     (∀ w x e, Shape w → w.execs[x]? = some e → isPaused e.state = true →
-       PMono w (prop c f .update w x).1 ∧ (prop c f .update w x).2 = false) := by
+       PMono w (prop c f .update w x).1 ∧ (prop c f .update w x).2 = false) ∧
+    (∀ w x, Shape w → BelowOk c f w x) := by
   intro f
   induction f with
   | zero =>
-    exact ⟨fun w x _ => ⟨PMono.refl w, fun _ _ _ => rfl, fun d y hd _ => absurd hd (by omega)⟩,
-           fun w x e _ _ _ => ⟨PMono.refl w, rfl⟩⟩
+    exact ⟨fun w x _ => ⟨PMono.refl w, fun _ => rfl, fun d y hd _ _ => absurd hd (by omega)⟩,
+           fun w x e _ he _ => by
+             simp only [prop, updateLocal, he]
+             split
+             · exact ⟨PMono.refl w, trivial⟩
+             · exact ⟨pmono_taskUpdate w _ _, trivial⟩,
+           fun w x _ => ⟨PMono.refl w, rfl, fun d y _ hd _ _ => absurd hd (by omega)⟩⟩
   | succ f ih =>
-    obtain ⟨ihA, ihB⟩ := ih
-    constructor
+    obtain ⟨ihA, ihB, ihC⟩ := ih
+    -- the loop over the sub-workflows (the same in pause_workflow and below a completed sub-workflow)
+    have hloop : ∀ (w : World), Shape w → ∀ (l : List Nat) (acc : World × Bool), PMono w acc.1 → acc.2 = false →
+        let r := l.foldl (fun (acc : World × Bool) k =>
+          if acc.2 then acc else
+          match acc.1.execs[k]? with
+          | some ek => if isCompleted ek.state then prop c f .belowP acc.1 k else prop c f .pause acc.1 k
+          | none => acc) acc
+        PMono w r.1 ∧ r.2 = false ∧
+        (∀ (y : Nat), stateOf acc.1 y = some .PAUSED → stateOf r.1 y = some .PAUSED) ∧
+        (∀ (k d y : Nat), k ∈ l → d < f → Desc w d k y → Live w y → stateOf r.1 y = some .PAUSED) := by
+      intro w hs l
+      induction l with
+      | nil => intro acc hm hr; exact ⟨hm, hr, fun _ h => h, fun k _ _ hk => by simp at hk⟩
+      | cons k l ihl =>
+        intro acc hm hr
+        simp only [List.foldl_cons]
+        have hstep : ∃ acc' : World × Bool,
+            acc' = (if acc.2 then acc else
+              match acc.1.execs[k]? with
+              | some ek => if isCompleted ek.state then prop c f .belowP acc.1 k else prop c f .pause acc.1 k
+              | none => acc) ∧ PMono acc.1 acc'.1 ∧ acc'.2 = false ∧
+            (∀ d y, d < f → Desc w d k y → Live w y → stateOf acc'.1 y = some .PAUSED) := by
+          refine ⟨_, rfl, ?_⟩
+          rw [hr]
+          simp only [Bool.false_eq_true, if_false]
+          cases hk : acc.1.execs[k]? with
+          | none =>
+            refine ⟨PMono.refl _, hr, fun d y _ hdesc hlive => ?_⟩
+            have hge : w.execs.length ≤ k := by
+              rcases Nat.lt_or_ge k w.execs.length with h' | h'
+              · obtain ⟨e0, he0⟩ := get_of_lt h'
+                obtain ⟨e', he', _, _⟩ := hm.execs k e0 he0
+                rw [hk] at he'; simp at he'
+              · exact h'
+            cases d with
+            | zero =>
+              have : y = k := hdesc
+              subst this
+              obtain ⟨e, he, _⟩ := hlive
+              have := lt_of_get he; omega
+            | succ d =>
+              obtain ⟨k2, hk2, _⟩ := hdesc
+              rw [kidsOf_nil hs hge] at hk2; simp at hk2
+          | some ek' =>
+            simp only
+            obtain ⟨ek, hek, _, _⟩ := hm.back hk
+            have hceq := completed_iff hm hek hk
+            cases hc : isCompleted ek'.state with
+            | true =>
+              simp only [if_true]
+              have hC := ihC acc.1 k (hs.mono hm)
+              refine ⟨hC.mono, hC.noraise, fun d y hd hdesc hlive => ?_⟩
+              cases d with
+              | zero =>
+                have : y = k := hdesc
+                subst this
+                obtain ⟨e, he, hce⟩ := hlive
+                rw [hek] at he; cases he
+                rw [hceq] at hc; rw [hc] at hce; exact absurd hce (by simp)
+              | succ d =>
+                exact hC.paused (d + 1) y (by omega) hd (Desc.mono hm _ k y hdesc) (hlive.mono hm)
+            | false =>
+              simp only [Bool.false_eq_true, if_false]
+              have hA := ihA acc.1 k (hs.mono hm)
+              exact ⟨hA.mono, hA.noraise ⟨ek', hk, hc⟩, fun d y hd hdesc hlive =>
+                hA.paused d y hd (Desc.mono hm d k y hdesc) (hlive.mono hm)⟩
+        obtain ⟨acc', hacc', hm', hr', hp'⟩ := hstep
+        rw [← hacc']
+        obtain ⟨r1, r2, r3, r4⟩ := ihl acc' (hm.trans hm') hr'
+        refine ⟨r1, r2, fun y hy => r3 y (paused_stays hm' hy), fun k2 d y hk2 hd hdesc hlive => ?_⟩
+        rcases List.mem_cons.mp hk2 with rfl | hk2
+        · exact r3 y (hp' d y hd hdesc hlive)
+        · exact r4 k2 d y hk2 hd hdesc hlive
+    refine ⟨?_, ?_, ?_⟩
     · intro w x hs
-      -- the loop over the sub-workflows
-      have hloop : ∀ (l : List Nat) (acc : World × Bool), PMono w acc.1 → acc.2 = false →
-          let r := l.foldl (fun (acc : World × Bool) k =>
-            if acc.2 then acc else
-            match acc.1.execs[k]? with
-            | some ek => if isCompleted ek.state then acc else prop c f .pause acc.1 k
-            | none => acc) acc
-          PMono w r.1 ∧ r.2 = false ∧
-          (∀ (y : Nat), stateOf acc.1 y = some .PAUSED → stateOf r.1 y = some .PAUSED) ∧
-          (∀ (k d y : Nat), k ∈ l → (∃ ek, w.execs[k]? = some ek ∧ isCompleted ek.state = false) → d < f →
-             Chain w d k y → stateOf r.1 y = some .PAUSED) := by
-        intro l
-        induction l with
-        | nil => intro acc hm hr; exact ⟨hm, hr, fun _ h => h, fun k _ _ hk => by simp at hk⟩
-        | cons k l ihl =>
-          intro acc hm hr
-          simp only [List.foldl_cons]
-          -- one step
-          have hstep : ∃ acc' : World × Bool,
-              acc' = (if acc.2 then acc else
-                match acc.1.execs[k]? with
-                | some ek => if isCompleted ek.state then acc else prop c f .pause acc.1 k
-                | none => acc) ∧ PMono acc.1 acc'.1 ∧ acc'.2 = false ∧
-              ((∃ ek, w.execs[k]? = some ek ∧ isCompleted ek.state = false) → ∀ d y, d < f → Chain w d k y →
-                 stateOf acc'.1 y = some .PAUSED) := by
-            refine ⟨_, rfl, ?_⟩
-            rw [hr]
-            simp only [Bool.false_eq_true, if_false]
-            cases hk : acc.1.execs[k]? with
-            | none =>
-              refine ⟨PMono.refl _, hr, fun ⟨ek, hek, _⟩ => ?_⟩
-              obtain ⟨e', he', _, _⟩ := hm.execs k ek hek
-              rw [hk] at he'; simp at he'
-            | some ek' =>
-              simp only
-              obtain ⟨ek, hek, _, _⟩ := hm.back hk
-              have hceq := completed_iff hm hek hk
-              cases hc : isCompleted ek'.state with
-              | true =>
-                simp only [if_true]
-                refine ⟨PMono.refl _, hr, fun ⟨ek2, hek2, hc2⟩ => ?_⟩
-                rw [hek] at hek2; cases hek2
-                rw [hceq] at hc; rw [hc] at hc2; exact absurd hc2 (by simp)
-              | false =>
-                simp only [Bool.false_eq_true, if_false]
-                have hA := ihA acc.1 k (hs.mono hm)
-                exact ⟨hA.mono, hA.noraise ek' hk hc, fun _ d y hd hch =>
-                  hA.paused d y hd (Chain.mono hm d k y hch)⟩
-          obtain ⟨acc', hacc', hm', hr', hp'⟩ := hstep
-          rw [← hacc']
-          obtain ⟨r1, r2, r3, r4⟩ := ihl acc' (hm.trans hm') hr'
-          refine ⟨r1, r2, fun y hy => r3 y (paused_stays hm' hy), fun k2 d y hk2 hne hd hch => ?_⟩
-          rcases List.mem_cons.mp hk2 with rfl | hk2
-          · exact r3 y (hp' hne d y hd hch)
-          · exact r4 k2 d y hk2 hne hd hch
-      have hl := hloop (kidsOf w x) (w, false) (PMono.refl w) rfl
+      have hl := hloop w hs (kidsOf w x) (w, false) (PMono.refl w) rfl
       simp only at hl
-      -- unfold one level of prop
       have hprop : prop c (f + 1) .pause w x =
           (let r := (kidsOf w x).foldl (fun (acc : World × Bool) k =>
               if acc.2 then acc else
               match acc.1.execs[k]? with
-              | some ek => if isCompleted ek.state then acc else prop c f .pause acc.1 k
+              | some ek => if isCompleted ek.state then prop c f .belowP acc.1 k else prop c f .pause acc.1 k
               | none => acc) (w, false)
            if r.2 then r else
            match r.1.execs[x]? with
@@ -313,15 +360,13 @@ theorem pause_ok (c : Cfg) : ∀ (f : Nat),
              else (r.1, true)) := by rfl
       generalize hr : (kidsOf w x).foldl _ (w, false) = r at hl hprop
       obtain ⟨l1, l2, _, l4⟩ := hl
-      -- the part about x itself, as one statement about the final world
       have hfin : ∃ w2, (prop c (f + 1) .pause w x).1 = w2 ∧ PMono r.1 w2 ∧
-          (∀ e : Exec, w.execs[x]? = some e → isCompleted e.state = false →
-             (prop c (f + 1) .pause w x).2 = false ∧ stateOf w2 x = some .PAUSED) := by
+          (Live w x → (prop c (f + 1) .pause w x).2 = false ∧ stateOf w2 x = some .PAUSED) := by
         rw [hprop]
         simp only [l2, Bool.false_eq_true, if_false]
         cases hx : r.1.execs[x]? with
         | none =>
-          refine ⟨_, rfl, PMono.refl _, fun e he _ => ?_⟩
+          refine ⟨_, rfl, PMono.refl _, fun ⟨e, he, _⟩ => ?_⟩
           obtain ⟨e', he', _, _⟩ := l1.execs x e he
           rw [hx] at he'; simp at he'
         | some e =>
@@ -331,7 +376,7 @@ theorem pause_ok (c : Cfg) : ∀ (f : Nat),
           cases hp : isPaused e.state with
           | true =>
             simp only [if_true]
-            refine ⟨_, rfl, PMono.refl _, fun e1 he1 _ => ⟨l2, ?_⟩⟩
+            refine ⟨_, rfl, PMono.refl _, fun _ => ⟨l2, ?_⟩⟩
             simp only [stateOf, hx, Option.map_some]
             revert hp; cases e.state <;> simp [isPaused, Gen.States.pausedStates]
           | false =>
@@ -339,8 +384,7 @@ theorem pause_ok (c : Cfg) : ∀ (f : Nat),
             cases hv : (isValidTransition e.state .PAUSED == some true) with
             | false =>
               simp only [Bool.false_eq_true, if_false]
-              refine ⟨_, rfl, PMono.refl _, fun e1 he1 hc1 => ?_⟩
-              -- not completed, not paused ⇒ RUNNING ⇒ the transition is valid
+              refine ⟨_, rfl, PMono.refl _, fun ⟨e1, he1, hc1⟩ => ?_⟩
               rw [he0] at he1; cases he1
               have h5 := (hs.mono l1).1 x e hx
               rw [← hceq] at hc1
@@ -358,26 +402,27 @@ theorem pause_ok (c : Cfg) : ∀ (f : Nat),
               have hst1 : stateOf (setState r.1 x e .PAUSED) x = some .PAUSED := by
                 simp [stateOf, hx1]
               cases hpar : e.parent with
-              | none => exact ⟨_, rfl, hm1, fun _ _ _ => ⟨rfl, hst1⟩⟩
+              | none => exact ⟨_, rfl, hm1, fun _ => ⟨rfl, hst1⟩⟩
               | some t =>
                 simp only
                 split
                 · refine ⟨_, rfl, hm1.trans ⟨rfl, fun _ e h => ⟨e, h, rfl, Or.inl rfl⟩, rfl, fun _ tk h => ⟨tk, h, rfl⟩⟩,
-                    fun _ _ _ => ⟨rfl, ?_⟩⟩
+                    fun _ => ⟨rfl, ?_⟩⟩
                   exact hst1
                 · obtain ⟨b1, b2⟩ := ihB (setState r.1 x e .PAUSED) x _ ((hs.mono l1).mono hm1) hx1
                     (by show isPaused St.PAUSED = true; decide)
-                  exact ⟨_, rfl, hm1.trans b1, fun _ _ _ => ⟨b2, paused_stays b1 hst1⟩⟩
+                  exact ⟨_, rfl, hm1.trans b1, fun _ => ⟨b2, paused_stays b1 hst1⟩⟩
       obtain ⟨w2, hw2, hm2, hx2⟩ := hfin
-      refine ⟨by rw [hw2]; exact l1.trans hm2, fun e he hc => (hx2 e he hc).1, fun d y hd hch => ?_⟩
+      refine ⟨by rw [hw2]; exact l1.trans hm2, fun hl => (hx2 hl).1, fun d y hd hdesc hlive => ?_⟩
       rw [hw2]
       cases d with
       | zero =>
-        obtain ⟨rfl, e, he, hc⟩ := hch
-        exact (hx2 e he hc).2
+        have : y = x := hdesc
+        subst this
+        exact (hx2 hlive).2
       | succ d =>
-        obtain ⟨k, hk, hne, hch'⟩ := hch
-        exact paused_stays hm2 (l4 k d y hk hne (by omega) hch')
+        obtain ⟨k, hk, hdesc'⟩ := hdesc
+        exact paused_stays hm2 (l4 k d y hk (by omega) hdesc' hlive)
     · intro w x e hs he hp
       simp only [prop, he]
       split
@@ -392,7 +437,6 @@ theorem pause_ok (c : Cfg) : ∀ (f : Nat),
           have hA := ihA (taskUpdate w t e.state) tk.wf hs1
           split
           · rename_i hraised
-            -- the parent workflow raised: it is completed; only the task is force-failed
             obtain ⟨tk1, htk1, hw1⟩ := h1.tasks t tk htk
             have hlt : tk.wf < (taskUpdate w t e.state).execs.length := by
               rw [h1.elen]; exact hs.2 t tk htk
@@ -400,7 +444,7 @@ theorem pause_ok (c : Cfg) : ∀ (f : Nat),
             have hcp : isCompleted pe.state = true := by
               cases hc : isCompleted pe.state with
               | true => rfl
-              | false => rw [hA.noraise pe hpe hc] at hraised; exact absurd hraised (by simp)
+              | false => rw [hA.noraise ⟨pe, hpe, hc⟩] at hraised; exact absurd hraised (by simp)
             obtain ⟨pe2, hpe2, _, _⟩ := hA.mono.execs tk.wf pe hpe
             obtain ⟨tk2, htk2, hw2⟩ := hA.mono.tasks t tk1 htk1
             have hcp2 : isCompleted pe2.state = true := by rw [completed_iff hA.mono hpe hpe2]; exact hcp
@@ -408,5 +452,64 @@ theorem pause_ok (c : Cfg) : ∀ (f : Nat),
             exact ⟨(h1.trans hA.mono).trans f1, f2⟩
           · rename_i hnr
             exact ⟨h1.trans hA.mono, by simpa using hnr⟩
+    · intro w x hs
+      have hl := hloop w hs (kidsOf w x) (w, false) (PMono.refl w) rfl
+      simp only at hl
+      have hprop : prop c (f + 1) .belowP w x =
+          (kidsOf w x).foldl (fun (acc : World × Bool) k =>
+              if acc.2 then acc else
+              match acc.1.execs[k]? with
+              | some ek => if isCompleted ek.state then prop c f .belowP acc.1 k else prop c f .pause acc.1 k
+              | none => acc) (w, false) := by rfl
+      rw [← hprop] at hl
+      obtain ⟨l1, l2, _, l4⟩ := hl
+      refine ⟨l1, l2, fun d y hpos hd hdesc hlive => ?_⟩
+      cases d with
+      | zero => omega
+      | succ d =>
+        obtain ⟨k, hk, hdesc'⟩ := hdesc
+        exact l4 k d y hk (by omega) hdesc' hlive
+
+
+/-! ### `Desc` against `below` (the parent links walked upwards) -/
+
+theorem mem_kidsOf {w : World} {x k : Nat} :
+    k ∈ kidsOf w x ↔ ∃ e t tk, w.execs[k]? = some e ∧ e.parent = some t ∧ w.tasks[t]? = some tk ∧ tk.wf = x := by
+  unfold kidsOf childrenOfTask
+  simp only [List.mem_flatMap, List.mem_filter, List.mem_map, Prod.exists, List.mem_zipIdx_iff_getElem?,
+    beq_iff_eq]
+  constructor
+  · intro h
+    obtain ⟨tk, t, ⟨htk, hwf⟩, k', e', ⟨e2, k2, ⟨he, hp⟩, h1⟩, h2⟩ := h
+    cases h1
+    subst h2
+    exact ⟨_, t, tk, he, hp, htk, hwf⟩
+  · rintro ⟨e, t, tk, he, hp, htk, hwf⟩
+    exact ⟨tk, t, ⟨htk, hwf⟩, k, e, ⟨e, k, ⟨he, hp⟩, rfl⟩, rfl⟩
+
+theorem Desc.snoc {w : World} : ∀ (d a p y : Nat), Desc w d a p → y ∈ kidsOf w p → Desc w (d + 1) a y := by
+  intro d
+  induction d with
+  | zero => intro a p y hp hy; cases hp; exact ⟨y, hy, rfl⟩
+  | succ d ih =>
+    intro a p y ⟨k, hk, hd⟩ hy
+    exact ⟨k, hk, ih k p y hd hy⟩
+
+theorem desc_of_below (w : World) (a : Nat) : ∀ (f y : Nat), below w a f y = true → ∃ d, d < f ∧ Desc w d a y := by
+  intro f
+  induction f with
+  | zero => intro y h; simp [below] at h
+  | succ f ih =>
+    intro y h
+    simp only [below, Bool.or_eq_true] at h
+    rcases h with h | h
+    · exact ⟨0, by omega, show y = a by simpa using h⟩
+    · cases hp : parentWf w y with
+      | none => simp [hp] at h
+      | some p =>
+        simp only [hp] at h
+        obtain ⟨d, hd, hdesc⟩ := ih p h
+        obtain ⟨e, t, tk, he, hpar, htk, hwf⟩ := parentWf_eq hp
+        exact ⟨d + 1, by omega, Desc.snoc d a p y hdesc (mem_kidsOf.mpr ⟨e, t, tk, he, hpar, htk, hwf⟩)⟩
 
 end Mistral.Tree
